@@ -396,6 +396,9 @@ def draw_case(rng):
         per = draw_periods(rng, dt, many=many)
         if many:
             cls += '/many-periods'
+    if rng.random() < 0.02:
+        per = np.array([0.0])            # the rigid oscillator alone
+        cls += '/only-T0'
     xi = float(XIS[int(rng.integers(len(XIS)))]) if rng.random() < 0.7 else float(rng.uniform(0, 1))
     return x, cls, dt, per, xi
 
